@@ -186,6 +186,10 @@ func newListFlow(c *Ctx) *listFlow {
 								if lf.add(lf.key(a), lf.pts[lf.key(x.Val)]) {
 									changed = true
 								}
+							case *ssa.FreeVar:
+								if lf.add(lf.key(a), lf.pts[lf.key(x.Val)]) {
+									changed = true
+								}
 							}
 						}
 					case *ssa.UnOp:
@@ -202,6 +206,21 @@ func newListFlow(c *Ctx) *listFlow {
 							case *ssa.Alloc:
 								if lf.add(lf.key(x), lf.pts[lf.key(a)]) {
 									changed = true
+								}
+							case *ssa.FreeVar:
+								// a variable a function literal captured: the cell its maker bound
+								if lf.add(lf.key(x), lf.pts[lf.key(a)]) {
+									changed = true
+								}
+							}
+						}
+					case *ssa.MakeClosure:
+						if f, ok := x.Fn.(*ssa.Function); ok {
+							for i, bnd := range x.Bindings {
+								if i < len(f.FreeVars) {
+									if lf.add(lf.key(f.FreeVars[i]), lf.pts[lf.key(bnd)]) {
+										changed = true
+									}
 								}
 							}
 						}
